@@ -815,8 +815,75 @@ def run_serve_case(case: Dict[str, Any]) -> CaseInfo:
                     evals=len(case["sizes"]))
 
 
+# ---- the client goes away while the request body is still arriving
+
+@st.composite
+def gone_case(draw: Any) -> Dict[str, Any]:
+    return {"pieces": draw(st.lists(st.integers(0, 40), min_size=0, max_size=4)),
+            "limit": draw(st.sampled_from([64, 1 << 16])),
+            "declared": draw(st.booleans())}
+
+
+def run_gone(case: Dict[str, Any]) -> CaseInfo:
+    """http.disconnect before the body is complete: the wrapper must stop waiting for request
+    messages at once (in the server nothing more would ever arrive)."""
+    from hypercorn.app_wrappers import WSGIWrapper
+
+    calls: List[bytes] = []
+
+    def app(environ: dict, start_response: Any) -> Any:
+        calls.append(environ["wsgi.input"].read())
+        start_response("200 OK", [])
+        return [b"ok"]
+
+    msgs = [{"type": "http.request", "body": b"x" * n, "more_body": True} for n in case["pieces"]]
+    msgs.append({"type": "http.disconnect"})
+    it = iter(msgs)
+
+    class Hang(Exception):
+        pass
+
+    async def receive() -> dict:
+        try:
+            return next(it)
+        except StopIteration:
+            raise Hang()  # in the server this receive() would wait for ever
+
+    sent: List[dict] = []
+
+    async def send(m: dict) -> None:
+        sent.append(m)
+
+    async def sync_spawn(func: Any, *args: Any) -> Any:
+        return func(*args)
+
+    def call_soon(func: Any, *args: Any) -> Any:
+        return run_sync(func(*args))
+
+    headers = [(b"host", b"x")]
+    if case["declared"]:
+        headers.append((b"content-length", str(sum(case["pieces"]) + 10).encode()))
+    scope = {"type": "http", "http_version": "1.1", "method": "POST", "scheme": "http",
+             "path": "/up", "raw_path": b"/up", "query_string": b"", "root_path": "",
+             "headers": headers, "client": ("192.0.2.7", 1), "server": ("198.51.100.1", 8443),
+             "asgi": {"version": "3.0"}, "extensions": {}}
+    try:
+        run_sync(WSGIWrapper(app, case["limit"])(scope, receive, send, sync_spawn, call_soon))
+    except Hang:
+        raise Violation("wsgi_waits_after_disconnect", f"after http.disconnect (body pieces "
+                        f"{case['pieces']}) the wrapper went on waiting for request messages")
+    # (whether the application is still called, with what had arrived, is left open: the
+    # statement speaks of requests, and PEP 3333 does not know aborted ones - hypercorn calls it)
+    if len(calls) > 1:
+        raise Violation("wsgi_call_count", f"{len(calls)} calls for one aborted request")
+    return CaseInfo(bool(case["pieces"]), [f"pieces={len(case['pieces'])}",
+                                           "called" if calls else "not_called"])
+
+
 def parts() -> List[Part]:
     return [
+        Part("gone", run_gone, strategy=gone_case, quick=200, thorough=4000,
+             rule="client disconnects after 0..4 body messages, before the body is complete"),
         Part("serve", run_serve_case, strategy=serve_case, quick=64, thorough=1500,
              rule="hypercorn.asyncio.serve / hypercorn.trio.serve(mode='wsgi') on a unix socket: "
                   "the configured body limit reaches the wrapper, bodies echo"),
